@@ -183,8 +183,8 @@ func RunReal(F *RFuncs, c Config, r *rand.Rand) (*Outcome, []string) {
 	go func() { wg.Wait(); close(done) }()
 	select {
 	case <-done:
-	case <-time.After(20 * time.Second):
-		return o, []string{"deadlock: consumers / Do still blocked after 20 s on the real runtime"}
+	case <-time.After(10 * time.Second):
+		return o, []string{"deadlock or livelock: consumers / Do still blocked after 10 s on the real runtime"}
 	}
 	var bad []string
 	if c.Sys == "do" {
@@ -218,8 +218,10 @@ func MainR(F *RFuncs) {
 	out := flag.String("out", "", "output directory")
 	systems := flag.String("systems", strings.Join(ChannelSystems, ","), "systems")
 	replay := flag.String("replay", "", "replay file: run its configuration many times")
+	maxsec := flag.Int("maxsec", 0, "stop after this many seconds (0 = no limit)")
 	flag.Parse()
 	rng := rand.New(rand.NewSource(*seed))
+	start := time.Now()
 	type viol struct {
 		Config Config   `json:"config"`
 		What   []string `json:"what"`
@@ -240,6 +242,9 @@ func MainR(F *RFuncs) {
 		cur = filepath.Join(*out, "current.json")
 	}
 	runCfg := func(c Config, reps int) {
+		if len(sum.Violations) >= 3 || (*maxsec > 0 && time.Since(start) > time.Duration(*maxsec)*time.Second) { // enough failing configurations: stop (a livelocked goroutine would slow everything down)
+			return
+		}
 		if cur != "" {
 			os.WriteFile(cur, []byte(c.Key()), 0o644)
 		}
@@ -275,7 +280,7 @@ func MainR(F *RFuncs) {
 		thorough := *mode == "thorough"
 		for _, sys := range strings.Split(*systems, ",") {
 			sum.Systems[sys] = &stats{}
-			nc, reps := 150, 12
+			nc, reps := 150, 25
 			if thorough {
 				nc, reps = 1500, 40
 			}
